@@ -174,7 +174,7 @@ def run_shard(ctx: Ctx) -> None:
         if msg:
             raise Violation(msg, {"schema_text": text, "pickle": pickle_b64((s, vals, hists))})
 
-    hyp_run(ctx, case(ctx.pick(6, 20)), body, ctx.n(320, 3000), shrink_cap=60)
+    hyp_run(ctx, case(ctx.pick(6, 20)), body, ctx.n(960, 3000), shrink_cap=60)
 
 
 def replay(c: Dict[str, Any]) -> Optional[str]:
